@@ -25,6 +25,7 @@ type frPacket struct {
 	Len    int    `json:"n"`
 	Mode   int    `json:"m"`           // 0 WritePacket, 1 WritePacket2, 2 NoFlush (flushed later), 3 header/body.../trailer
 	Splits []int  `json:"s,omitempty"` // body split points for modes 1 and 3
+	Huge   bool   `json:"h,omitempty"` // a body at the upper end of what a packet can carry: the writer may refuse it (then nothing of it may be sent and the connection stays usable) or it must round-trip
 	PauseUs int   `json:"p,omitempty"` // ping mode: the writer flushes and stays silent for this long before the packet
 }
 
@@ -129,7 +130,30 @@ func frGen(r *rand.Rand, params map[string]any) frScenario {
 	sc.YieldUnlock = r.IntN(2) == 0
 	switch params["faults"] {
 	case "none":
-		if params["enumerate"] != true && r.IntN(4) == 0 {
+		if params["enumerate"] != true && r.IntN(40) == 0 {
+			// bodies around the largest packet (maxPacketLen is used to aim the generator, not by the oracle)
+			sc.MaxSegment, sc.MaxRead = 0, 0
+			for i := range sc.Bufs {
+				sc.Bufs[i] = 4096 + r.IntN(60000)
+			}
+			mk := func() frPacket {
+				l := maxPacketLen - r.IntN(40)
+				if sc.Protocol == 0 || r.IntN(2) == 0 {
+					l &^= 3
+				}
+				p := frPacket{Type: r.Uint32(), Len: l, Mode: r.IntN(4), Huge: true}
+				if p.Mode == 1 || p.Mode == 3 {
+					p.Splits = []int{r.IntN(l + 1)}
+				}
+				return p
+			}
+			small := func() frPacket { return frPacket{Type: r.Uint32(), Len: 4 * r.IntN(50), Mode: r.IntN(3)} }
+			sc.AB = []frPacket{small(), mk(), small()}
+			sc.BAp = []frPacket{small()}
+			if r.IntN(2) == 0 {
+				sc.BAp = []frPacket{mk(), small()}
+			}
+		} else if params["enumerate"] != true && r.IntN(4) == 0 {
 			// the clock moves only when every goroutine is blocked, so a pong is at most two latencies away and a
 			// second timeout before it (a legitimately dead peer) cannot happen
 			sc.PingMode, sc.TimeAdvPct = true, 0
@@ -396,9 +420,21 @@ func frRun(t *testing.T, sc frScenario, tape *vrt.Tape, keepLog bool, fault stri
 					body := frBody(sc.ContentKey, d, i, p.Len)
 					out.dirs[d].written = append(out.dirs[d].written, frRead{frFixType(p.Type), body})
 					if err := frWrite(pcs[d], p, body); err != nil {
-						out.dirs[d].writeErr = err
 						out.dirs[d].written = out.dirs[d].written[:len(out.dirs[d].written)-1]
+						if p.Huge {
+							// refused as too large: allowed, but then the connection must go on working - the following
+							// packets are written and judged as usual
+							s.Count("probe.frame_huge_packet_refused_by_writer")
+							if p.Mode == 3 {
+								break // the header/body/trailer path may have sent a part: the stream is legitimately over
+							}
+							continue
+						}
+						out.dirs[d].writeErr = err
 						break
+					}
+					if p.Huge {
+						s.Count("probe.frame_huge_packet_accepted_by_writer")
 					}
 				}
 				if sc.PingMode {
